@@ -119,6 +119,10 @@ def deser_struct(prog, sl, ty):
                     a0 = strip(a)
                     if a0[0] == 'call' and not a0[1].endswith(('next_value', 'missing_field')) and a0[1] != 'std::ops::Try::branch':
                         k.default = a0[1]
+                    elif a0[0] == 'field' and strip(a0[1])[0] == 'call' and strip(a0[1])[1].endswith('std::default::Default>::default'):
+                        # container-level #[serde(default)]: the field of <Container as Default>::default()
+                        k.default = 'container:%s.%s' % (strip(a0[1])[1], a0[2])
+                        k.container_default = (strip(a0[1])[1], a0[2])
         else:
             res['problems'].append('no struct literal in visit_map')
         for k in res['keys'].values():
